@@ -1,9 +1,9 @@
 package vc
 
 import (
-	"go/types"
 	"bufio"
 	"fmt"
+	"go/types"
 	"os"
 	"path/filepath"
 	"sort"
@@ -125,15 +125,25 @@ type Template struct {
 }
 
 type ContractSet struct {
-	SharedPkg map[string]string // "Type.Field" -> package of the directive
-	Shared    map[string]string // "Type.Field" -> reason: fields a deep copy shares with its source (by pointer) instead of copying
-	Templates []Template
-	Funcs map[string]*Contract
-	Pures map[string]*PureFn
-	Order []string
-	Files []string
-	Axioms []AxiomDef
+	SharedPkg  map[string]string // "Type.Field" -> package of the directive
+	Shared     map[string]string // "Type.Field" -> reason: fields a deep copy shares with its source (by pointer) instead of copying
+	Templates  []Template
+	Funcs      map[string]*Contract
+	Pures      map[string]*PureFn
+	Order      []string
+	Files      []string
+	Axioms     []AxiomDef
 	GhostNames map[string]bool // every ghost constant declared by some contract
+	XMLOrders  []XMLOrderSpec  // xml-order directives (static check "xml-order")
+}
+
+// XMLOrderSpec: `//@ xml-order T: a, b, c` - the child ELEMENTS that encoding/xml writes for struct type T (fields with an
+// element tag, in declaration order, which is the order of the output) are exactly a, b, c in this order.
+type XMLOrderSpec struct {
+	Pkg, Type string
+	Names     []string
+	File      string
+	Line      int
 }
 
 type AxiomDef struct {
@@ -252,6 +262,18 @@ func (cs *ContractSet) loadFile(path string) error {
 				cs.SharedPkg = map[string]string{}
 			}
 			cs.SharedPkg[strings.TrimSpace(parts[0])] = pkg
+		case "xml-order":
+			parts := strings.SplitN(r.text, ":", 2)
+			if len(parts) != 2 {
+				return fmt.Errorf("%s:%d: xml-order wants `Type: name, name, ...`", path, r.line)
+			}
+			var names []string
+			for _, n := range strings.Split(parts[1], ",") {
+				if n = strings.TrimSpace(n); n != "" {
+					names = append(names, n)
+				}
+			}
+			cs.XMLOrders = append(cs.XMLOrders, XMLOrderSpec{Pkg: pkg, Type: strings.TrimSpace(parts[0]), Names: names, File: path, Line: r.line})
 		case "spec-fields":
 			cs.Templates = append(cs.Templates, Template{Pkg: pkg, Kw: "spec", Text: r.text, File: path, Line: r.line})
 		case "requires", "ensures", "invariant", "decreases":
